@@ -1,7 +1,7 @@
 use crate::runtime::error::state_error;
 use crate::runtime::list::{access_with_integer, access_with_symbol};
 use crate::runtime::utilities::*;
-use garnish_lang_traits::{Extents, GarnishData, GarnishDataType, GarnishNumber, Instruction, RuntimeError, SymbolListPart, TypeConstants};
+use garnish_lang_traits::{ErrorType, Extents, GarnishData, GarnishDataType, GarnishNumber, Instruction, RuntimeError, SymbolListPart, TypeConstants};
 use log::trace;
 
 pub fn apply<Data: GarnishData>(this: &mut Data) -> Result<Option<Data::Size>, RuntimeError<Data::Error>> {
@@ -141,7 +141,12 @@ fn apply_internal<Data: GarnishData>(this: &mut Data, instruction: Instruction, 
             while let Some(part) = iter.next() {
                 match part {
                     SymbolListPart::Symbol(sym) => {
-                        match access_with_symbol(this, sym, current)? {
+                        // a step of the path that lands on a value without keyed lookup finds nothing
+                        let found = match access_with_symbol(this, sym, current) {
+                            Err(e) if e.get_type() == ErrorType::UnsupportedOpTypes => None,
+                            other => other?,
+                        };
+                        match found {
                             None => {
                                 current = this.add_unit()?;
                                 break;
@@ -150,7 +155,11 @@ fn apply_internal<Data: GarnishData>(this: &mut Data, instruction: Instruction, 
                         }
                     },
                     SymbolListPart::Number(num) => {
-                        match access_with_integer(this, num, current)? {
+                        let found = match access_with_integer(this, num, current) {
+                            Err(e) if e.get_type() == ErrorType::UnsupportedOpTypes => None,
+                            other => other?,
+                        };
+                        match found {
                             None => {
                                 current = this.add_unit()?;
                                 break;
